@@ -7,6 +7,8 @@ mod keyring;
 
 use commands::{DecryptOptions, EncryptOptions, PasswordOptions};
 
+use std::io::Write;
+
 use anyhow::anyhow;
 use getopts::Options;
 
@@ -59,18 +61,18 @@ fn try_main() -> Result<(), anyhow::Error> {
     let args: Vec<&str> = args.iter().map(|arg| arg.as_str()).collect();
 
     if args.len() <= 1 || args.contains(&"--help") || args.contains(&"-h") {
-        print_help();
+        print_help()?;
 
         return Ok(());
     }
 
     match args[1] {
         "-h" | "--help" => {
-            print_help();
+            print_help()?;
             return Ok(());
         }
         "-v" | "--version" => {
-            print_version();
+            print_version()?;
             return Ok(());
         }
         "enc" | "encrypt" => {
@@ -143,12 +145,14 @@ fn slice_args<'a>(args: &'a [&'a str], idx: usize) -> &'a [&'a str] {
     args
 }
 
-fn print_help() {
-    println!("{}", USAGE);
+// println! panics when stdout cannot be written (a full device, a closed
+// pipe). Report that like any other failure instead.
+fn print_help() -> std::io::Result<()> {
+    writeln!(std::io::stdout(), "{}", USAGE)
 }
 
-fn print_version() {
-    println!("v{}", VERSION);
+fn print_version() -> std::io::Result<()> {
+    writeln!(std::io::stdout(), "v{}", VERSION)
 }
 
 fn print_usage_error(msg: &str) -> Result<(), anyhow::Error> {
